@@ -688,7 +688,7 @@ Section Generic.
     (snd (spec_withs' lg steps) ++ fst (do_call' (fst (spec_withs' lg steps)) c),
      snd (do_call' (fst (spec_withs' lg steps)) c)).
   Proof.
-    induction steps as [|[a|en] r IH]; intros lg c.
+    induction steps as [|[lz a|en|w] r IH]; intros lg c.
     - cbn [run spec_withs fst snd app]. destruct (do_call' lg c). reflexivity.
     - cbn [run spec_withs]. rewrite with_thm. unfold spec_sweeten.
       specialize (IH (with_ctx lg (fields_of' (items' 0 false a))) c).
@@ -697,6 +697,7 @@ Section Generic.
       destruct (spec_withs' _ r) as [lg' es] eqn:Ew.
       cbn [fst snd] in *. injection IH as -> ->. rewrite app_assoc. reflexivity.
     - cbn [run spec_withs]. unfold set_en. apply IH.
+    - cbn [run spec_withs]. apply IH.
   Qed.
 
   (* the enabler seen by the call is the last one installed; Development() never changes *)
@@ -704,12 +705,46 @@ Section Generic.
     lg_en (fst (spec_withs' lg steps)) = final_en V (lg_en lg) steps /\
     lg_dev (fst (spec_withs' lg steps)) = lg_dev lg.
   Proof.
-    induction steps as [|[a|en] r IH]; intros lg; [split; reflexivity| |].
+    induction steps as [|[lz a|en|w] r IH]; intros lg; [split; reflexivity| | |].
     - cbn [spec_withs final_en]. destruct (spec_sweeten' a) as [fs cs].
       specialize (IH {| lg_ctx := lg_ctx lg ++ fs; lg_en := lg_en lg; lg_dev := lg_dev lg |}).
       destruct (spec_withs' _ r) as [lg' es]. cbn [fst] in *. exact IH.
     - cbn [spec_withs final_en].
       exact (IH {| lg_ctx := lg_ctx lg; lg_en := en; lg_dev := lg_dev lg |}).
+    - cbn [spec_withs final_en]. exact (IH lg).
+  Qed.
+
+  (* ---- the core composition under the logger ---- *)
+  Local Notation ksteps_of' := (ksteps_of V F as_field is_error as_string any_fld named_error).
+
+  (* the flat logger's context after a history = the With fields of the core's history, in order *)
+  Lemma spec_withs_ctx : forall steps lg,
+    lg_ctx (fst (spec_withs' lg steps)) = lg_ctx lg ++ ks_fields F (ksteps_of' steps).
+  Proof.
+    induction steps as [|[lz a|en|w] r IH]; intros lg.
+    - cbn [spec_withs fst ksteps_of ks_fields]. rewrite app_nil_r. reflexivity.
+    - cbn [spec_withs ksteps_of ks_fields]. unfold spec_sweeten.
+      specialize (IH {| lg_ctx := lg_ctx lg ++ fields_of' (items' 0 false a); lg_en := lg_en lg; lg_dev := lg_dev lg |}).
+      destruct (spec_withs' _ r) as [lg' es]. cbn [fst lg_ctx] in *. rewrite IH, app_assoc. reflexivity.
+    - cbn [spec_withs ksteps_of].
+      exact (IH {| lg_ctx := lg_ctx lg; lg_en := en; lg_dev := lg_dev lg |}).
+    - cbn [spec_withs ksteps_of ks_fields]. exact (IH lg).
+  Qed.
+
+  (* removing every WrapCore step from a history changes nothing the logger delivers *)
+  Fixpoint erase_wraps (steps : list (step V)) : list (step V) :=
+    match steps with
+    | [] => []
+    | SWrap _ :: r => erase_wraps r
+    | s :: r => s :: erase_wraps r
+    end.
+  Lemma run_erase_wraps : forall steps lg c, run' lg steps c = run' lg (erase_wraps steps) c.
+  Proof.
+    induction steps as [|[lz a|en|w] r IH]; intros lg c; [reflexivity| | |].
+    - cbn [run erase_wraps]. destruct (swith' lg a) as [[lg' es]|[lg' es]|]; [|reflexivity|reflexivity].
+      rewrite IH. reflexivity.
+    - cbn [run erase_wraps]. apply IH.
+    - cbn [run erase_wraps]. apply IH.
   Qed.
 
   (* ---- the gate: an arbitrary enabler predicate ---- *)
@@ -818,6 +853,146 @@ Section Generic.
   Qed.
 
 End Generic.
+
+
+(* ====================================================================== *)
+(* the core composition: Check-then-Write through any stack of lazy cores and wrappers *)
+Section CoreStack.
+  Variable F : Type.
+  Local Notation core := (core F).
+
+  Lemma flat_core_withs : forall (c : core) fss, flat F (core_withs F c fss) = flat F c ++ concat fss.
+  Proof.
+    induction c as [ctx|inner IH f0|w inner IH]; intros fss; cbn [core_withs flat].
+    - reflexivity.
+    - rewrite IH. cbn [concat]. rewrite app_assoc. reflexivity.
+    - apply IH.
+  Qed.
+  Lemma hookfree_core_withs : forall (c : core) fss, hookfree F (core_withs F c fss) = hookfree F c.
+  Proof.
+    induction c as [ctx|inner IH f0|w inner IH]; intros fss; cbn [core_withs hookfree].
+    - reflexivity.
+    - apply IH.
+    - rewrite IH. reflexivity.
+  Qed.
+  Lemma ok_core_withs : forall (c : core) fss, ok F (core_withs F c fss) = ok F c.
+  Proof.
+    induction c as [ctx|inner IH f0|w inner IH]; intros fss; cbn [core_withs ok].
+    - reflexivity.
+    - apply IH.
+    - destruct w; try apply IH. apply hookfree_core_withs.
+  Qed.
+
+  (* Write on a stack without hooked cores reaches the observer with the whole context *)
+  Lemma write_hookfree : forall (c : core) fss fs, hookfree F c = true ->
+    write_w F c fss fs = [flat F c ++ concat fss ++ fs].
+  Proof.
+    induction c as [ctx|inner IH f0|w inner IH]; intros fss fs H; cbn [write_w flat hookfree] in *.
+    - reflexivity.
+    - rewrite (IH _ _ H). cbn [concat]. rewrite <- !app_assoc. reflexivity.
+    - apply andb_true_iff in H. destruct H as [Hw Hin].
+      destruct w; cbn [wrapper_is_hook negb] in Hw; try discriminate; apply IH; exact Hin.
+  Qed.
+
+  (* Check followed by Write of every registered core: exactly ONE record, with the whole context *)
+  Lemma check_write_ok : forall (c : core) fss fs, ok F c = true ->
+    concat (map (fun r => write_w F (fst r) (snd r) fs) (check_w F c fss)) = [flat F c ++ concat fss ++ fs].
+  Proof.
+    induction c as [ctx|inner IH f0|w inner IH]; intros fss fs H; cbn [check_w flat ok] in *.
+    - cbn [map concat fst snd write_w app]. reflexivity.
+    - rewrite (IH _ _ H). cbn [concat]. rewrite <- !app_assoc. reflexivity.
+    - destruct w; try (apply IH; exact H).
+      + cbn [map concat fst snd]. rewrite app_nil_r. cbn [write_w]. apply write_hookfree. exact H.
+      + rewrite map_app, concat_app. rewrite (IH _ _ H). cbn [map concat fst snd write_w app]. reflexivity.
+  Qed.
+
+  Theorem deliver_flat : forall (c : core) fs, ok F c = true -> deliver F c fs = [flat F c ++ fs].
+  Proof. intros c fs H. unfold deliver. rewrite (check_write_ok c [] fs H). reflexivity. Qed.
+
+  Lemma flat_build : forall ks (c : core), flat F (build F c ks) = flat F c ++ ks_fields F ks.
+  Proof.
+    induction ks as [|[[|] fs|w] r IH]; intros c; cbn [build ks_fields].
+    - rewrite app_nil_r. reflexivity.
+    - rewrite IH. cbn [flat]. rewrite app_assoc. reflexivity.
+    - rewrite IH, flat_core_withs. cbn [concat]. rewrite app_nil_r, app_assoc. reflexivity.
+    - rewrite IH. reflexivity.
+  Qed.
+
+  Lemma ok_build : forall ks (c : core) h, ks_ok F h ks = true -> ok F c = true ->
+    (h = false -> hookfree F c = true) -> ok F (build F c ks) = true.
+  Proof.
+    induction ks as [|[[|] fs|w] r IH]; intros c h Hks Hok Hh; cbn [build ks_ok] in *.
+    - exact Hok.
+    - apply (IH _ h Hks); [exact Hok|exact Hh].
+    - apply (IH _ h Hks); [rewrite ok_core_withs; exact Hok|rewrite hookfree_core_withs; exact Hh].
+    - apply andb_true_iff in Hks. destruct Hks as [Hw Hks].
+      apply (IH _ _ Hks).
+      + destruct w; cbn [ok]; try exact Hok. cbn [wrapper_is_fwd andb negb] in Hw.
+        apply Hh. destruct h; [discriminate|reflexivity].
+      + intros E. apply orb_false_iff in E. destruct E as [E1 E2]. cbn [hookfree].
+        rewrite E2, (Hh E1). reflexivity.
+  Qed.
+
+  (* whatever the history of With / WithLazy / WrapCore (no forwarder above a hooked core), an entry
+     written with fields fs reaches the observer exactly once, as context ++ With fields ++ fs *)
+  Theorem build_deliver : forall ks ctx fs, ks_ok F false ks = true ->
+    deliver F (build F (CObs ctx) ks) fs = [ctx ++ ks_fields F ks ++ fs].
+  Proof.
+    intros ks ctx fs H. rewrite deliver_flat.
+    - rewrite flat_build. cbn [flat]. rewrite <- app_assoc. reflexivity.
+    - apply (ok_build ks (CObs ctx) false H); reflexivity.
+  Qed.
+
+  (* lazy or eager makes no difference to what is delivered *)
+  Fixpoint ks_eager (ks : list (cstep F)) : list (cstep F) :=
+    match ks with
+    | [] => []
+    | KWith _ fs :: r => KWith false fs :: ks_eager r
+    | KWrap w :: r => KWrap w :: ks_eager r
+    end.
+  Lemma ks_eager_facts : forall ks h, ks_ok F h (ks_eager ks) = ks_ok F h ks /\ ks_fields F (ks_eager ks) = ks_fields F ks.
+  Proof.
+    induction ks as [|[lz fs|w] r IH]; intros h; cbn [ks_eager ks_ok ks_fields].
+    - split; reflexivity.
+    - destruct (IH h) as [H1 H2]. rewrite H1, H2. split; reflexivity.
+    - destruct (IH (h || wrapper_is_hook w)) as [H1 H2]. rewrite H1, H2. split; reflexivity.
+  Qed.
+  Theorem lazy_is_eager : forall ks ctx fs, ks_ok F false ks = true ->
+    deliver F (build F (CObs ctx) ks) fs = deliver F (build F (CObs ctx) (ks_eager ks)) fs.
+  Proof.
+    intros ks ctx fs H. rewrite !build_deliver.
+    - rewrite (proj2 (ks_eager_facts ks false)). reflexivity.
+    - rewrite (proj1 (ks_eager_facts ks false)). exact H.
+    - exact H.
+  Qed.
+
+  (* the limit, as zap documents it in hook.go: a forwarder above a hooked core loses the entry *)
+  Lemma fwd_over_hook_loses : forall ctx fs, deliver F (CWrap WFwd (CWrap WHook (CObs ctx))) fs = [].
+  Proof. reflexivity. Qed.
+End CoreStack.
+
+(* the logger of the sugar model over the core model: the stack built by the history delivers, for
+   the fields fs of any Write (the call's entry, a diagnostic), the flat logger's context ++ fs *)
+Section Transparent.
+  Variables V F : Type.
+  Variable as_field : V -> option F.
+  Variable is_error : V -> bool.
+  Variable as_string : V -> option bytes.
+  Variable any_fld : bytes -> V -> F.
+  Variable named_error : bytes -> V -> F.
+  Variable array_invalid : list (nat * V * V) -> F.
+
+  Theorem core_composition_transparent : forall (lg : logger F) (steps : list (step V)) (fs : list F),
+    let ks := ksteps_of V F as_field is_error as_string any_fld named_error steps in
+    ks_ok F false ks = true ->
+    deliver F (build F (CObs (lg_ctx lg)) ks) fs =
+    [lg_ctx (fst (spec_withs V F as_field is_error as_string any_fld named_error array_invalid lg steps)) ++ fs].
+  Proof.
+    intros lg steps fs ks H. rewrite (build_deliver F ks (lg_ctx lg) fs H).
+    rewrite (spec_withs_ctx V F as_field is_error as_string any_fld named_error array_invalid steps lg).
+    fold ks. rewrite <- app_assoc. reflexivity.
+  Qed.
+End Transparent.
 
 (* ====================================================================== *)
 (* wire instance *)
@@ -941,4 +1116,9 @@ Definition ex_args : list sx :=
 (* With(ex_args...) then Infow("m", ex_args...) on a logger with every level enabled *)
 Definition ex_case : sx :=
   SL [ SL [SZ 1; SZ (-1)]; SZ 0; SL [SL [SZ 0; SZ 0; SL ex_args]];
+       SL [SZ 0; SZ 0; SB [x6d]; SL ex_args; SB []; SB []; SB [x0a]; SZ 0] ].
+
+(* WithLazy(ex_args...) then Infow("m", ex_args...), no wrapper *)
+Definition ex_case_lazy_only : sx :=
+  SL [ SL [SZ 1; SZ (-1)]; SZ 0; SL [SL [SZ 0; SZ 1; SL ex_args]];
        SL [SZ 0; SZ 0; SB [x6d]; SL ex_args; SB []; SB []; SB [x0a]; SZ 0] ].
